@@ -13,7 +13,7 @@ from props import c04, c05, c11
 
 ID = "C14"
 LEVEL = "exploration"
-BUDGET = {"quick": (8, 40), "thorough": (16, 700)}
+BUDGET = {"quick": (8, 40), "thorough": (16, 1200)}
 K = 3
 SCALES = [0.5, 2.0, 10.0, 0.1, 3.0, 1.0]
 RULE = ("Generated OCP (all sampling methods, grids, horizons) with positive scale= values (scalar and element-wise) on states, controls, algebraic variables, variables of every grid kind, "
